@@ -43,7 +43,7 @@ INFORMATIONAL = {
 
 def _toml_root(fn):
     """the local holding the parsed configuration: assigned from <x>.read() / tomlkit.loads(..) / tomlkit.parse(..)"""
-    for n in sorted([x for x in ast.walk(fn) if isinstance(x, ast.Assign)], key=lambda x: x.lineno):
+    for n in [x for x in _in_order(fn) if isinstance(x, ast.Assign)]:
         if isinstance(n.targets[0], ast.Name) and isinstance(n.value, ast.Call) and isinstance(n.value.func, ast.Attribute) and n.value.func.attr in ("read", "loads", "parse"):
             return n.targets[0].id
     return "content"
@@ -68,6 +68,11 @@ def _in_order(fn):
                 rec(hd.body)
     rec(fn.body)
     return out
+
+
+def _content_writer(pkg):
+    """BaseConfiguration.content with the _fill_* style helpers it may have been split into put back"""
+    return pkg.expanded("BaseConfiguration", "content")
 
 
 def _init_handle(pkg):
@@ -203,8 +208,7 @@ def _alias_paths(fn, root_names, derive=False):
     reads, writes = {}, {}
     for node in ast.walk(fn):
         pass
-    stmts = [n for n in ast.walk(fn) if isinstance(n, (ast.Assign,))]
-    stmts.sort(key=lambda n: n.lineno)
+    stmts = [n for n in _in_order(fn) if isinstance(n, (ast.Assign,))]       # execution order (expanded helpers keep their own line numbers)
 
     def path_of(e):
         if isinstance(e, ast.Name) and e.id in var:
@@ -520,7 +524,7 @@ USER_PATHS = ("chemistry.", "ODEsolver.", "general.name", "general.description",
 
 def _r9(ctx, pkg):
     mod = pkg.modules[CONF]
-    cfn = pkg.cls("BaseConfiguration").methods["content"]
+    cfn = _content_writer(pkg)
     n = 0
     var = {_toml_root(cfn): ""}
 
@@ -532,7 +536,7 @@ def _r9(ctx, pkg):
             if b is not None:
                 return f"{b}.{e.slice.value}" if b else e.slice.value
         return None
-    for st in sorted([x for x in ast.walk(cfn) if isinstance(x, ast.Assign)], key=lambda x: x.lineno):
+    for st in [x for x in _in_order(cfn) if isinstance(x, ast.Assign)]:
         t = st.targets[0]
         if isinstance(t, ast.Name):
             p = path_of(st.value)
@@ -564,7 +568,7 @@ def _r1(ctx, pkg):
         ctx.missing("R1", "NAUNET_CONFIG_DEFAULT", (CONF, 0), "schema string not found")
         return
     schema = _toml_paths(default)
-    cfn = pkg.cls("BaseConfiguration").methods["content"]
+    cfn = _content_writer(pkg)
     _, writes, _ = _alias_paths(cfn, {_toml_root(cfn): ""})
     rfn = pkg.method("RenderCommand", "handle")
     efn = pkg.method("ExtendCommand", "handle")
@@ -638,11 +642,14 @@ def _r2(ctx, pkg):
                 ctx.check(got == exp, "R2", f"InitCommand:{k.arg}=", (INIT, c.lineno), f"`{k.arg}` receives the value parsed from --{exp}",
                           expected=f"a local derived from self.option({exp!r})", found=f"{ast.unparse(k.value)} (from --{got})")
     # species_kwargs keys
-    cfn = pkg.cls("BaseConfiguration").methods["content"]
+    cfn = _content_writer(pkg)
     looked = []
+    kwnames = {"self._species_kwargs"} | {t.id for n in ast.walk(cfn) if isinstance(n, ast.Assign) and ast.unparse(n.value) == "self._species_kwargs" for t in n.targets if isinstance(t, ast.Name)}
     for n in ast.walk(cfn):
-        if isinstance(n, ast.Call) and isinstance(n.func, ast.Attribute) and n.func.attr == "get" and ast.unparse(n.func.value) == "self._species_kwargs" and n.args:
+        if isinstance(n, ast.Call) and isinstance(n.func, ast.Attribute) and n.func.attr == "get" and ast.unparse(n.func.value) in kwnames and n.args:
             looked.append((n.args[0].value, n.lineno))
+        elif isinstance(n, ast.Subscript) and ast.unparse(n.value) in kwnames and isinstance(n.slice, ast.Constant):
+            looked.append((n.slice.value, n.lineno))
     stored = _kwargs_dict(h, "BaseConfiguration", "species_kwargs")
     sp_params = {a.arg for a in pkg.method("Species", "__init__").args.args} - {"self", "name"}
     rh = pkg.method("RenderCommand", "handle")
